@@ -35,6 +35,7 @@ type Program struct {
 	extSpecs   map[string]*FuncContract // trusted contracts for functions outside the module
 	sweeps     []sweepSpec
 	constGlobals map[*ssa.Global]*constGlobalInfo
+	fieldInitOnly map[string]bool
 	allFuncs   map[*ssa.Function]bool
 	typeInvs   []typeInv
 	valueInvs  []*valueInv
